@@ -83,40 +83,68 @@ def run(ctx, chk):
     if not chk.require(b is not None, "C11/anchor", "WriteFile::into_stream", "stream body not found", "", nontrivial=False):
         return
     ex = Ex(b)
-    # ---------------- (b) manifest
-    pushes = [(bb, t) for bb, t in b.calls() if callee(t) == "alloc::vec::Vec::<T, A>::push"]
-    mf = [(bb, t) for bb, t in pushes if agg_named(ex.operand(t["args"][1]), TFILE)]
-    if chk.require(len(mf) == 1, "C11-b/manifest-entry", "WriteFile", "expected one manifest push of tlv::File, found %d" % len(mf), "", b.sp()):
-        bb, t = mf[0]
-        e = ex.operand(t["args"][1])
-        f = agg_named(e, TFILE)[0]
-        fid = unwrap_some(fld(f, "file_id"))
-        fsz = unwrap_some(fld(f, "file_size"))
+    import pathsym as ps
+    pe = ps.PathEval(b)
 
-        def from_map_entry(x, comp):
-            fl, base = fields_of(strip_ref(x))
-            nx = [c for c in walk(x) if c[0] == "call" and c[1].endswith("Iterator::next")]
-            it = [c for c in walk(x) if c[0] == "call" and c[1].endswith("HashMap::<K, V, S, A>::iter")]
-            cd = calls_in(x, CD)
-            return bool(nx and it and cd) and fl[-3:] == ["@Some", "0", comp]
-        chk.require(fid is not None and from_map_entry(fid, "0"), "C11-b/manifest-id", "tlv::File.file_id",
-                    "announced id is %s, not the key of the directory map entry" % (show(fid)[:100] if fid else None), "= map key", t.get("sp"))
+    def pre_expr(e):
+        """Ex expression (path-insensitive) of a value defined before the evaluated path."""
+        e = ps.strip(e)
+        if e[0] == "pre":
+            return ex.operand({"c": {"l": e[1], "p": []}})
+        return None
+
+    def aggs(e, suffix):
+        return [x for x in ps.walk(e) if x[0] == "agg" and str(x[1]).endswith(suffix)]
+
+    def fld2(agg, name):
+        return agg[2][agg[3].index(name)] if name in agg[3] else None
+
+    def is_none2(e):
+        e = ps.strip(e)
+        return e[0] == "agg" and str(e[1]).endswith("Option::None")
+
+    def from_dir_map(e):
+        """e denotes (a reference to) the id -> path map returned by convert_dir."""
+        pexp = pre_expr(e)
+        return pexp is not None and bool(calls_in(pexp, CD))
+    # ---------------- (b) manifest: evaluated symbolically along the loop body (iterator step -> push)
+    pushes = [(bb, t) for bb, t in b.calls() if callee(t) == "alloc::vec::Vec::<T, A>::push"]
+    nexts = [(bb, t) for bb, t in b.calls() if callee(t).endswith("Iterator::next")]
+    cand = []
+    for pbb, pt in pushes:
+        for nbb, nt in nexts:
+            for path in ps.simple_paths(b, nbb, pbb):
+                env, _ = pe.run(path)
+                v = ps.norm(pe.operand(pt["args"][1], env))
+                fa = aggs(v, "tlv::File::File")
+                if fa:
+                    cand.append((pbb, pt, nbb, nt, env, fa[0]))
+    if chk.require(len(cand) == 1, "C11-b/manifest-entry", "WriteFile", "expected one manifest push of tlv::File per directory entry, found %d" % len(cand), "", b.sp()):
+        bb, t, nbb, nt, env, f = cand[0]
+        # the loop runs over the directory map
+        it = pe.operand(nt["args"][0], env)
+        itx = pre_expr(it)
+        over_map = itx is not None and bool(calls_in(itx, CD)) and \
+            any(c[0] == "call" and (c[1].endswith("HashMap::<K, V, S, A>::iter") or c[1].endswith("IntoIterator::into_iter")) for c in walk(itx))
+        root, names = ps.field_chain(fld2(f, "file_id"))
+        is_entry = root[0] == "call" and root[1].endswith("Iterator::next") and [n for n in names if isinstance(n, int)][-1:] == [0]
+        chk.require(over_map and is_entry, "C11-b/manifest-id", "tlv::File.file_id",
+                    "announced id is %s, not the key of the directory map entry" % ps.show(ps.core(fld2(f, "file_id")))[:100], "= map key", t.get("sp"))
+        sz = ps.core(fld2(f, "file_size"))
+        while sz[0] == "cast":
+            sz = ps.core(sz[1])
         ok = False
-        if fsz is not None:
-            x = strip_ref(fsz)
-            while x[0] == "cast":
-                x = strip_ref(x[1])
-            seeks = calls_in(x, "std::io::Seek::seek")
-            if seeks and x[0] == "proj" and x[1] is seeks[0] or (seeks and x[0] == "proj" and x[1][0] == "call" and x[1][1] == "std::io::Seek::seek"):
-                s_ = x[1]
-                whence = s_[2][1]
-                opened = calls_in(s_[2][0], "std::fs::File::open")
-                ok = whence[0] == "agg" and whence[1].endswith("SeekFrom::End") and whence[2][0] == ("const", 0) and \
-                    bool(opened) and from_map_entry(opened[0][2][0], "1")
+        if sz[0] == "call" and sz[1] == "std::io::Seek::seek" and len(sz[2]) == 2:
+            whence = ps.strip(sz[2][1])
+            fh = ps.core(sz[2][0])
+            if fh[0] == "call" and fh[1] == "std::fs::File::open":
+                r2, n2 = ps.field_chain(fh[2][0])
+                same_entry = r2[0] == "call" and r2[1].endswith("Iterator::next") and [n for n in n2 if isinstance(n, int)][-1:] == [1]
+                ok = whence[0] == "agg" and str(whence[1]).endswith("SeekFrom::End") and whence[2][0] == ("const", 0) and same_entry
         chk.require(ok, "C11-b/manifest-size", "tlv::File.file_size",
-                    "announced size is %s, not seek(End(0)) of the file opened from that entry's path" % (show(fsz)[:120] if fsz else None),
+                    "announced size is %s, not seek(End(0)) of the file opened from that entry's path" % ps.show(sz)[:120],
                     "= seek(End(0)) of entry's file", t.get("sp"))
-        chk.require(is_none(fld(f, "file_offset")) and is_none(fld(f, "payload")), "C11-b/manifest-bare", "tlv::File",
+        chk.require(is_none2(fld2(f, "file_offset")) and is_none2(fld2(f, "payload")), "C11-b/manifest-bare", "tlv::File",
                     "manifest entries carry an offset or payload", "offset/payload absent", t.get("sp"), nontrivial=False)
         vec_arg = ex.operand(t["args"][0])
         wacks = [(b2, t2) for b2, t2 in b.calls() if callee(t2) == "zvt::io::PacketTransport::<S>::write_packet_with_ack"]
@@ -128,56 +156,69 @@ def run(ctx, chk):
                 strip_ref(fld(wf[0], "password"))[0] == "path" and strip_ref(fld(wf[0], "password"))[1] == "password"
             chk.require(good, "C11-b/manifest-sent", "WriteFile", "the packet sent does not carry the manifest vector / the caller's password",
                         "WriteFile{password, files}", wacks[0][1].get("sp"))
-            # the push loop iterates the whole map and precedes the send
             chk.require(b.dominates(bb, wacks[0][0]) or wacks[0][0] in b.reachable(bb), "C11-b/manifest-complete", "WriteFile",
                         "the command is sent before the manifest is built", "", b.sp(), nontrivial=False)
-    # ---------------- (c) answer
+    # ---------------- (c) answer: evaluated symbolically along every path read_packet -> write_packet(WriteData)
     wr = [(bb, t) for bb, t in b.calls() if callee(t) == "zvt::io::PacketTransport::<S>::write_packet" and
           ty_str(t["f"]["a"][-1]) == "zvt::feig::packets::WriteData"]
-    if chk.require(len(wr) == 1, "C11-c/answer", "WriteFile", "expected one write of WriteData, found %d" % len(wr), "", b.sp()):
+    rd = [(bb, t) for bb, t in b.calls() if callee(t) in ("zvt::io::PacketTransport::<S>::read_packet",
+                                                          "zvt::io::PacketTransport::<S>::read_packet_with_ack")]
+    if chk.require(len(wr) == 1 and len(rd) == 1, "C11-c/answer", "WriteFile",
+                   "expected one read of the request and one write of WriteData, found %d/%d" % (len(rd), len(wr)), "", b.sp()):
         bb, t = wr[0]
-        pk = ex.operand(t["args"][1])
-        f = agg_named(pk, TFILE)
-        if chk.require(len(f) == 1, "C11-c/answer", "WriteData", "answer does not contain one tlv::File", "", t.get("sp")):
-            f = f[0]
+        paths = ps.simple_paths(b, rd[0][0], bb)
+        chk.require(0 < len(paths) < 512, "C11-c/answer", "paths", "could not enumerate the paths from the request to the answer (%d)" % len(paths),
+                    "", t.get("sp"), nontrivial=False)
 
-            def req_field(x, name):
-                fl, base = deep_fields(x)
-                while len(fl) >= 2 and fl[-2] in ("@Ok", "@Some", "@Continue") and fl[-1] == "0":
-                    fl = fl[:-2]
-                return "@RequestForData" in fl and fl[-1:] == [name] and bool(calls_in(x, "zvt::io::PacketTransport::<S>::read_packet"))
-            chk.require(req_field(fld(f, "file_id"), "file_id"), "C11-c/echo-id", "WriteData.file.file_id",
-                        "answer id is %s, not the requested id" % show(fld(f, "file_id"))[:100], "= request.file_id", t.get("sp"))
-            chk.require(req_field(fld(f, "file_offset"), "file_offset"), "C11-c/echo-offset", "WriteData.file.file_offset",
-                        "answer offset is %s, not the requested offset" % show(fld(f, "file_offset"))[:100], "= request.file_offset", t.get("sp"))
-            chk.require(is_none(fld(f, "file_size")), "C11-c/no-size", "WriteData.file.file_size", "answer carries a size", "absent", t.get("sp"),
-                        nontrivial=False)
-            pay = unwrap_some(fld(f, "payload"))
+        def req_chain(e, name):
+            """e is the field `name` of the tlv::File inside the RequestForData packet that was read."""
+            root, names = ps.field_chain(e)
+            strs = [n for n in names if isinstance(n, str)]
+            plain = [n for n in strs if not n.startswith("@")]
+            from_read = bool(ps.calls_in(root, "::read_packet")) or bool(ps.calls_in(root, "::read_packet_with_ack"))
+            return from_read and "@RequestForData" in strs and plain[-3:] == ["tlv", "file", name]
+        for path in paths:
+            env, _ = pe.run(path)
+            pk = ps.norm(pe.operand(t["args"][1], env))
+            fa = aggs(pk, "tlv::File::File")
+            if not chk.require(len(fa) == 1, "C11-c/answer", "WriteData", "answer does not contain one tlv::File", "", t.get("sp")):
+                continue
+            f = fa[0]
+            chk.require(req_chain(fld2(f, "file_id"), "file_id"), "C11-c/echo-id", "WriteData.file.file_id",
+                        "answer id is %s, not the requested id" % ps.show(ps.core(fld2(f, "file_id")))[:100], "= request.file_id", t.get("sp"))
+            chk.require(req_chain(fld2(f, "file_offset"), "file_offset"), "C11-c/echo-offset", "WriteData.file.file_offset",
+                        "answer offset is %s, not the requested offset" % ps.show(ps.core(fld2(f, "file_offset")))[:100],
+                        "= request.file_offset", t.get("sp"))
+            chk.require(is_none2(fld2(f, "file_size")), "C11-c/no-size", "WriteData.file.file_size", "answer carries a size", "absent",
+                        t.get("sp"), nontrivial=False)
+            pay = ps.core(fld2(f, "payload"))
             ok = False
-            why = show(pay)[:140] if pay else None
-            if pay is not None and pay[0] == "call" and pay[1] == "alloc::slice::<impl [T]>::to_vec":
-                sl = strip_ref(pay[2][0])
-                if sl[0] == "call" and sl[1] == "core::ops::index::Index::index":
-                    base, rng = strip_ref(sl[2][0]), strip_ref(sl[2][1])
-                    if rng[0] == "agg" and rng[1].endswith("RangeTo::RangeTo"):
-                        n = strip_ref(rng[2][0])
-                        ra = calls_in(n, "std::os::unix::fs::FileExt::read_at")
-                        if ra and n[0] == "proj" and n[1][0] == "call" and n[1][1].endswith("read_at"):
-                            r = n[1]
-                            file_e, buf_e, off_e = r[2]
-                            opened = calls_in(file_e, "std::fs::File::open")
-                            key_ok = path_ok = False
-                            if opened:
-                                gets = calls_in(opened[0][2][0], "std::collections::hash::map::HashMap::<K, V, S, A>::get")
-                                if gets:
-                                    path_ok = bool(calls_in(gets[0][2][0], CD))
-                                    key_ok = req_field(gets[0][2][1], "file_id")
-                            buf_ok = show(strip_ref(base)) in show(buf_e) and base[0] == "call" and base[1] == "alloc::vec::from_elem" and \
-                                any(x[0] == "path" and x[1] == "adpu_size" for x in walk(base[2][1]))
-                            o = strip_ref(off_e)
-                            off_ok = o[0] == "cast" and o[2] == "u64" and req_field(o[1], "file_offset")
-                            ok = key_ok and path_ok and buf_ok and off_ok
-                            why = "file key ok=%s map ok=%s buffer ok=%s offset ok=%s" % (key_ok, path_ok, buf_ok, off_ok)
+            why = ps.show(pay)[:160]
+            # buf[..n] copied: `<[T]>::to_vec(&buf[..n])` (to_owned / Vec::from are stripped as transparent)
+            sl = pay
+            if sl[0] == "call" and sl[1] in ("alloc::slice::<impl [T]>::to_vec",) and sl[2]:
+                sl = ps.core(sl[2][0])
+            if sl[0] == "call" and sl[1] == "core::ops::index::Index::index" and len(sl[2]) == 2:
+                base, rng = ps.core(sl[2][0]), ps.strip(sl[2][1])
+                if rng[0] == "agg" and str(rng[1]).endswith("RangeTo::RangeTo"):
+                    n = ps.core(rng[2][0])
+                    if n[0] == "call" and n[1].endswith("FileExt::read_at") and len(n[2]) == 3:
+                        file_e, buf_e, off_e = (ps.core(x) for x in n[2])
+                        key_ok = path_ok = False
+                        if file_e[0] == "call" and file_e[1] == "std::fs::File::open":
+                            g = ps.core(file_e[2][0])
+                            if g[0] == "call" and g[1].endswith("HashMap::<K, V, S, A>::get") and len(g[2]) == 2:
+                                path_ok = from_dir_map(g[2][0])
+                                key_ok = req_chain(g[2][1], "file_id")
+                        bx = pre_expr(base)
+                        buf_ok = base == buf_e and bx is not None and strip_ref(bx)[0] == "call" and strip_ref(bx)[1] == "alloc::vec::from_elem" and \
+                            any(x[0] == "path" and x[1] == "adpu_size" for x in walk(strip_ref(bx)[2][1]))
+                        o = off_e
+                        while o[0] == "cast":
+                            o = ps.core(o[1])
+                        off_ok = req_chain(o, "file_offset") and (off_e[0] != "cast" or off_e[2] == "u64")
+                        ok = key_ok and path_ok and buf_ok and off_ok
+                        why = "file key ok=%s map ok=%s buffer ok=%s offset ok=%s" % (key_ok, path_ok, buf_ok, off_ok)
             chk.require(ok, "C11-c/payload", "WriteData.file.payload",
                         "payload is not buf[..read_at(file_of(request.file_id), &mut buf, request.file_offset)]: %s" % why,
                         "buf[..n], n = read_at(files[request.file_id], buf, request.file_offset)", t.get("sp"))
